@@ -340,7 +340,7 @@ PROPS = {
     "C14": dict(
         tables=[],
         audit_modules=["RodbusModel.Audit.C14", "RodbusModel.Audit.C14Serial"],
-        required_theorems=["Rodbus.C14Serial.run_eq_spec", "Rodbus.C14Serial.announced_delays_conform", "Rodbus.C14Serial.restart_after_disable", "Rodbus.C14Serial.restart_after_port_loss", "Rodbus.C14Serial.no_open_while_disabled", "Rodbus.C14Serial.shutdown_final", "Rodbus.C14.kth_delay", "Rodbus.C14.kth_delay_created", "Rodbus.C14.kth_delay_after_reset",
+        required_theorems=["Rodbus.C14.kth_delay_get", "Rodbus.C14.delay_saturates", "Rodbus.C14Serial.run_eq_spec", "Rodbus.C14Serial.announced_delays_conform", "Rodbus.C14Serial.restart_after_disable", "Rodbus.C14Serial.restart_after_port_loss", "Rodbus.C14Serial.no_open_while_disabled", "Rodbus.C14Serial.shutdown_final", "Rodbus.C14.kth_delay", "Rodbus.C14.kth_delay_created", "Rodbus.C14.kth_delay_after_reset",
                            "Rodbus.C14.disconnect_is_min", "Rodbus.C14.no_overflow", "Rodbus.C14.delay_le_max"],
         suites=[dict(gen="retry", n=(4000, 300000),
                      exhaustive="11x11 lattice of special (min,max) durations incl. 0, Duration::MAX, MAX/2, MAX/2+1"),
@@ -591,7 +591,7 @@ PROPS = {
     "C13": dict(
         tables=[],
         audit_modules=["RodbusModel.Audit.C13"],
-        required_theorems=["Rodbus.C13.legal_path", "Rodbus.C13.connecting_only_enabled", "Rodbus.C13.no_attempt_while_disabled",
+        required_theorems=["Rodbus.C13.decode_level_never_dials", "Rodbus.C13.wait_after_failed_attempt", "Rodbus.C13.announced_delays_follow_strategy_failures", "Rodbus.C13.legal_path", "Rodbus.C13.connecting_only_enabled", "Rodbus.C13.no_attempt_while_disabled",
                            "Rodbus.C13.connected_only_after_connecting", "Rodbus.C13.fail_fast", "Rodbus.C13.shutdown_from_anywhere",
                            "Rodbus.C13.disable_leads_to_disabled", "Rodbus.C13.wait_after_refused",
                            "Rodbus.C13.wait_after_lost_connection", "Rodbus.C13.announced_delays_follow_strategy",
